@@ -5,6 +5,11 @@ import scipy.sparse as sp
 from .. import coqrun as cq
 from .. import hier
 
+def _nn(v):
+    """NaN counts as 'exceeds every bound' in the oracle comparisons"""
+    return np.inf if np.isnan(v) else v
+
+
 TECHNIQUE = 'Coq proof of the coarsening-loop specification + level-count prediction and structural oracle on built hierarchies'
 LEVEL_TEXT = ('Kernel-checked theorems (Props/C04.v) about the Gallina model of the constructors\' coarsening loop, for '
               'every level-extension behaviour, max_levels and max_coarse: the loop terminates, the finest level is the '
@@ -69,9 +74,9 @@ def structure_oracle(ctx, name, ml, Auser, Acopy, rkind, max_levels, case, filt=
     if len(lv) > max(1, max_levels):
         ctx.fail('levels-exceed-max_levels/' + name, '%d levels with max_levels=%d' % (len(lv), max_levels), case)
     A0 = hier.dense_of(lv[0].A)
-    if A0.shape != Acopy.shape or np.abs(A0 - Acopy).max() > 0:
+    if A0.shape != Acopy.shape or _nn(np.abs(A0 - Acopy).max()) > 0:
         ctx.fail('finest-not-user-matrix/' + name, 'level-0 values differ from the input matrix', case)
-    if np.abs(hier.dense_of(Auser) - Acopy).max() > 0:
+    if _nn(np.abs(hier.dense_of(Auser) - Acopy).max()) > 0:
         ctx.fail('user-matrix-modified/' + name, 'the caller\'s matrix changed during setup', case)
     sz = sizes_of(ml)
     mc = case.get('max_coarse')
@@ -110,8 +115,8 @@ def structure_oracle(ctx, name, ml, Auser, Acopy, rkind, max_levels, case, filt=
                 rap = Rf.toarray()
             else:
                 alt = Rf.toarray()
-        if np.linalg.norm(Acd - rap) > 1e-11 * (1 + np.linalg.norm(rap)) and \
-                (alt is None or np.linalg.norm(Acd - alt) > 1e-11 * (1 + np.linalg.norm(alt))):
+        if _nn(np.linalg.norm(Acd - rap)) > 1e-11 * (1 + np.linalg.norm(rap)) and \
+                (alt is None or _nn(np.linalg.norm(Acd - alt)) > 1e-11 * (1 + np.linalg.norm(alt))):
             ctx.fail('not-galerkin/' + name, 'level %d: |A_c - R A P| = %.3g' % (l + 1, np.linalg.norm(Acd - rap)), case)
         if rkind == 'hermitian' and not np.array_equal(Rd, Pd.conj().T):
             ctx.fail('R-not-PH/' + name, 'level %d' % l, case)
